@@ -38,6 +38,72 @@ let strptime_o (data : z list) (fmt : z list) (tm : tmrec) : (z list * tmrec) op
 let utc_zone : zone res Lazy.t = lazy (reset_to_builtin_utc Z0)
 let e15 = z_of_string "1000000000000000"
 
+(* C18: (num, den, bits) of the panel's duration types *)
+let c18_types = [ "ns64", (1, 1000000000, 64); "us64", (1, 1000000, 64); "ms64", (1, 1000, 64); "s64", (1, 1, 64);
+                  "min32", (60, 1, 32); "h32", (3600, 1, 32); "s8", (1, 1, 8); "s16", (1, 1, 16);
+                  "min8", (60, 1, 8); "min16", (60, 1, 16); "third64", (1, 3, 64); "fs64", (1, 1000000000000000, 64) ]
+
+let utc_al (sec : z) : alookup res =
+  bind (Lazy.force utc_zone) (fun u -> bind (break_time u Z0 sec) (fun (al, _) -> OK al))
+
+let c18 (a : string array) : string =
+  let (num_i, den_i, bits_i) = List.assoc a.(1) c18_types in
+  let num = z_of_int num_i and den = z_of_int den_i and bits = z_of_int bits_i in
+  let fits v = (Z.compare (rep_min bits) v <> Gt) && (Z.compare v (rep_max bits) <> Gt) in
+  match a.(0) with
+  | "split" ->
+    let c = zi a 2 in
+    let m = if a.(1) = "s64" then OK (c, Z0) else split_seconds num den c in
+    let s = split_spec num den c in
+    let sh (x, y) = string_of_z x ^ " " ^ string_of_z y in
+    out (show_res sh m) (sh s) (fits c && in64 (Z.mul c num))
+  | "tconv" ->
+    let c = zi a 2 in
+    let m = bind (if a.(1) = "s64" then OK (c, Z0) else split_seconds num den c) (fun (sec, _) ->
+            bind (utc_al sec) (fun al -> OK (show_fields al.al_cs))) in
+    let (fsec, _) = split_spec num den c in
+    out (show_res (fun x -> x) m) (show_fields (civil_of_seconds fsec)) (fits c && in64 fsec)
+  | "tfmt" ->
+    let c = zi a 2 in let fmt = bytes_of_hex a.(3) in
+    let m = bind (if a.(1) = "s64" then OK (c, Z0) else split_seconds num den c) (fun (sec, sub) ->
+            bind (if a.(1) = "s64" then OK Z0 else to_femto num den sub) (fun fs ->
+            bind (utc_al sec) (fun al -> format_impl strftime_o fmt al fs sec))) in
+    let (fsec, fsub) = split_spec num den c in
+    (* spec: floor second, remainder truncated to femtoseconds *)
+    let ffs = fst (Z.div_eucl (Z.mul (Z.mul fsub num) e15) den) in
+    let cs = civil_of_seconds fsec in
+    let sp = render_spec strftime_o fmt cs Z0 [z_of_int 85; z_of_int 84; z_of_int 67] ffs fsec (spec_tm cs false) in
+    out (show_res hex_of_bytes m) (hex_of_bytes sp) (fits c && in64 fsec && clean_fmt fmt)
+  | "join" ->
+    let sec = zi a 2 and fs = zi a 3 in
+    let show = function Some v -> "1 " ^ string_of_z v | None -> "0" in
+    let m = if den_i > 1 then show_res show (join_subsecond bits den sec fs)
+            else if num_i > 1 then show (join_coarse bits num sec)
+            else if bits_i = 64 then show (Some sec)
+            else show (join_seconds_rep bits sec) in
+    let fl = fst (Z.div_eucl sec num) in
+    let s = if den_i > 1 then m else if fits fl then "1 " ^ string_of_z fl else "0" in
+    out m s (den_i = 1)
+  | _ ->
+    (* tparse <T> <fmt> <input> [EXP count | REJ] *)
+    let fmt = bytes_of_hex a.(2) and input = bytes_of_hex a.(3) in
+    let show = function Some v -> "1 " ^ string_of_z v | None -> "0" in
+    let m = (match Lazy.force utc_zone with
+      | Err er -> "ERR:" ^ string_of_err er
+      | OK u ->
+        (match parse_impl strptime_o u u fmt input with
+         | Err er -> "ERR:" ^ string_of_err er
+         | OK None -> "0"
+         | OK (Some (sec, fs)) ->
+           if den_i > 1 then show_res show (join_subsecond bits den sec fs)
+           else if num_i > 1 then show (join_coarse bits num sec)
+           else if bits_i = 64 then show (Some sec)
+           else show (join_seconds_rep bits sec))) in
+    let (s, p) = if Array.length a > 4 && a.(4) = "REJ" then ("0", true)
+                 else if Array.length a > 5 && a.(4) = "EXP" then ("1 " ^ a.(5), true)
+                 else (m, false) in
+    out m s p
+
 let run_case (a : string array) : string =
   match a.(0) with
   | "fmt" ->
@@ -110,4 +176,5 @@ let run_case (a : string array) : string =
       let has_s = List.exists (fun tk -> match tk with FLib Ls -> true | _ -> false) (lex fmt) in
       out m ("1 " ^ string_of_z t ^ " " ^ (if has_s then "0" else string_of_z fs)) p
     end
+  | "split" | "tfmt" | "tconv" | "tparse" | "join" -> c18 a
   | _ -> "?unknown-op"
